@@ -53,6 +53,15 @@ class Report:
         self.explanation = ""
         self.extra = {}
         self.known = [k for k in load_known() if k.get("property") == pid and k.get("status", "open") == "open"]
+        # baseline of the unchanged tree (committed, never written at check time; tools/make_baseline.py): per contract the sha256 of
+        # the verified source segment and the names of the obligations that were discharged there
+        self.baseline = None
+        self.cur_sha = {}
+        try:
+            with open(os.path.join(ROOT, "baseline", f"{pid}.json")) as fh:
+                self.baseline = json.load(fh)
+        except Exception:  # noqa
+            self.baseline = None
 
     # ---------------------------------------------------------------- deductive part
     def add_pyvc(self, reg, keys, hooks=None, fallback=None):
@@ -68,7 +77,9 @@ class Report:
                 self.trusted.append(f"assumed contract (not verified against its body): {c.name} - {c.note}")
                 continue
             try:
-                self.functions.append(R.function_info(c))
+                fi_ = R.function_info(c)
+                self.functions.append(fi_)
+                self.cur_sha[c.key] = fi_["sha256"]
             except Exception as e:  # noqa
                 self.undecided.append(f"{c.name}: source not found ({e})")
         try:
@@ -79,6 +90,10 @@ class Report:
             return
         per_fn = {}
         for r in results:
+            for k_, note_ in (r.get("assumed_used") or {}).items():
+                t_ = f"assumed contract applied at a call site (not verified against its body): {k_} - {note_}"
+                if t_ not in self.trusted:
+                    self.trusted.append(t_)
             per_fn.setdefault(r["contract"], 0)
             per_fn[r["contract"]] += len(r["records"])
             if r["error"]:
@@ -146,9 +161,26 @@ class Report:
                                     "suffix": "" if native else " no-failing-input-found"})
         elif native is not None:
             self.violations.append({"what": rec["name"], "obligation": rec, "native": native, "suffix": ""})
+        elif self._regressed(rec):
+            # not decided by the solvers, no failing input found - but this very obligation WAS discharged on the unchanged tree and
+            # the source of the function it belongs to has changed since: reported as a violation of that obligation, with the
+            # solver's output, marked no-failing-input-found (an unchanged function with an undecided obligation stays undecided)
+            rec = dict(rec, info=(rec.get("info") or "") + " | discharged on the unchanged tree (baseline); the function's source "
+                       "has changed; now " + str(rec["result"]))
+            self.violations.append({"what": rec["name"], "obligation": rec, "native": None, "suffix": " no-failing-input-found"})
         else:
             self.undecided.append(f"obligation {rec['name']}: {rec['result']} ({rec['backend']}) and no failing input found "
                                   f"by the bounded search")
+
+    def _regressed(self, rec):
+        b = self.baseline
+        if not b:
+            return False
+        key = rec.get("contract")
+        old_sha, new_sha = (b.get("contracts") or {}).get(key), self.cur_sha.get(key)
+        if not old_sha or not new_sha or old_sha == new_sha:
+            return False
+        return rec["name"] in set(b.get("discharged") or ())
 
     def _is_known(self, name, native=None):
         """A recorded finding suppresses exactly what it lists: an obligation by name, a bounded witness by its exact id
